@@ -53,7 +53,7 @@ type IndexColumn struct {
 
 func newSchema(table string, master []sqliteMaster) (*Schema, error) {
 	var createSQL string
-	n := strings.ToLower(table)
+	n := lowerASCII(table)
 	for _, m := range master {
 		if m.typ == "table" && m.name == n {
 			createSQL = m.sql
@@ -107,7 +107,7 @@ func checkConstraintColumns(ct sql.CreateTableStmt) error {
 	column:
 		for _, col := range cols {
 			for _, def := range ct.Columns {
-				if col.Column != "" && strings.ToLower(def.Name) == strings.ToLower(col.Column) {
+				if col.Column != "" && lowerASCII(def.Name) == lowerASCII(col.Column) {
 					continue column
 				}
 			}
@@ -318,7 +318,7 @@ func sameIndexColumns(a, b []IndexColumn) bool {
 		return strings.ToLower(c)
 	}
 	for i := range a {
-		if strings.ToLower(a[i].Column) != strings.ToLower(b[i].Column) ||
+		if lowerASCII(a[i].Column) != lowerASCII(b[i].Column) ||
 			a[i].Expression != b[i].Expression ||
 			coll(a[i].Collate) != coll(b[i].Collate) {
 			return false
@@ -361,9 +361,9 @@ func (st *Schema) setPK(cols []IndexColumn) bool {
 
 // Returns the index of the named column, or -1.
 func (st *Schema) Column(name string) int {
-	u := strings.ToLower(name)
+	u := lowerASCII(name)
 	for i, col := range st.Columns {
-		if strings.ToLower(col.Column) == u {
+		if lowerASCII(col.Column) == u {
 			return i
 		}
 	}
@@ -380,9 +380,9 @@ func (st *Schema) column(name string) *TableColumn {
 
 // NamedIndex returns the index with the name (case insensitive)
 func (st *Schema) NamedIndex(name string) *SchemaIndex {
-	u := strings.ToUpper(name)
+	u := upperASCII(name)
 	for i, ind := range st.Indexes {
-		if strings.ToUpper(ind.Index) == u {
+		if upperASCII(ind.Index) == u {
 			return &st.Indexes[i]
 		}
 	}
@@ -391,9 +391,9 @@ func (st *Schema) NamedIndex(name string) *SchemaIndex {
 
 // Returns the index of the named column, or -1.
 func (si *SchemaIndex) Column(name string) int {
-	u := strings.ToUpper(name)
+	u := upperASCII(name)
 	for i, col := range si.Columns {
-		if strings.ToUpper(col.Column) == u {
+		if upperASCII(col.Column) == u {
 			return i
 		}
 	}
@@ -413,7 +413,7 @@ func (si *SchemaIndex) Column(name string) int {
 // all values will be null.
 // See https://sqlite.org/lang_createtable.html#rowid
 func isRowid(tableConstraint bool, typ string, dir sql.SortOrder) bool {
-	if strings.ToUpper(typ) != "INTEGER" {
+	if upperASCII(typ) != "INTEGER" {
 		return false
 	}
 	return tableConstraint || dir == sql.Asc
@@ -425,7 +425,7 @@ func isRowid(tableConstraint bool, typ string, dir sql.SortOrder) bool {
 // See https://sqlite.org/datatype3.html chapter "3.1. Determination Of Column
 // Affinity".
 func defaultWithAffinity(typ string, v interface{}) interface{} {
-	t := strings.ToUpper(typ)
+	t := upperASCII(typ)
 	has := func(s string) bool { return strings.Contains(t, s) }
 	switch {
 	case has("INT"):
@@ -474,4 +474,27 @@ func numericAffinity(v interface{}, real bool) interface{} {
 		}
 	}
 	return v
+}
+
+// SQLite compares identifiers (table, column and index names, type names)
+// case insensitively for the ASCII letters only: `é` and `É` are two
+// different columns, `ıNTEGER` (dotless i) is not `INTEGER`.
+func lowerASCII(s string) string {
+	b := []byte(s)
+	for i, c := range b {
+		if c >= 'A' && c <= 'Z' {
+			b[i] = c - 'A' + 'a'
+		}
+	}
+	return string(b)
+}
+
+func upperASCII(s string) string {
+	b := []byte(s)
+	for i, c := range b {
+		if c >= 'a' && c <= 'z' {
+			b[i] = c - 'a' + 'A'
+		}
+	}
+	return string(b)
 }
